@@ -193,31 +193,46 @@ def s2c(ctx, cases):
 
 
 # ---- waiter: every TLC behaviour is a schedule ----------------------------------------------
-async def _relay(fut):
-    return await fut
-
-
 def run_schedule(tree, vals, order, rev=False):
-    """await waiter(structure) on a hand-driven event loop: the futures are completed in exactly
-    the given order, the loop is stepped in between; returns the observation.
-    rev: dicts are filled in reverse key order (waiter gathers in insertion order)"""
+    """await waiter(structure) on a hand-driven event loop.  Every awaitable i delivers vals[i] once the
+    driver has released it (set_result on its gate future) - in exactly the given order, the loop being
+    stepped in between.  Kinds: 'fut' the gate future itself; 'task' a running task awaiting the gate;
+    'coro' an UN-STARTED coroutine object: it runs only once waiter awaits it, notes that it has started,
+    then waits until the awaitable it depends on (third payload field, 0 = none) has started, then for its
+    gate.  rev: dicts are filled in reverse key order.  Returns the observation."""
     from pyg_base import waiter
     loop = asyncio.new_event_loop()
-    futs, tasks = {}, {}
+    gate, tasks, begun, running, coros = {}, {}, {}, [], []
     val = {i: v for i, v in vals}
+
+    def fut_of(d, i):
+        if i not in d:
+            d[i] = loop.create_future()
+        return d[i]
+
+    async def co(i, dep):
+        running.append(i)
+        if not fut_of(begun, i).done():
+            begun[i].set_result(True)
+        if dep:
+            await fut_of(begun, dep)
+        return await fut_of(gate, i)
 
     def mk(t):
         k, p = t[0], t[1]
         if k == 'aw':
-            i, kind = p
-            if i not in futs:
-                futs[i] = loop.create_future()
+            i, kind, dep = p
+            fut_of(gate, i)
             if kind == 'fut':
-                return futs[i]
+                if not fut_of(begun, i).done():
+                    begun[i].set_result(True)
+                return gate[i]
             if kind == 'coro':
-                return _relay(futs[i])
+                c = co(i, dep)
+                coros.append(c)
+                return c
             if i not in tasks:
-                tasks[i] = loop.create_task(_relay(futs[i]))
+                tasks[i] = loop.create_task(co(i, dep))
             return tasks[i]
         if k == 'l':
             return [mk(x) for x in p]
@@ -231,28 +246,49 @@ def run_schedule(tree, vals, order, rev=False):
         for _ in range(n):
             loop.run_until_complete(asyncio.sleep(0))
 
+    def kinds(t, out):
+        if t[0] == 'aw':
+            out[t[1][0]] = t[1][1]
+        elif t[0] in 'lt':
+            for x in t[1]:
+                kinds(x, out)
+        elif t[0] == 'm':
+            for _, x in t[1]:
+                kinds(x, out)
+        return out
+
     try:
         structure = mk(tree)
+        is_coro = {i for i, kd in kinds(tree, {}).items() if kd == 'coro'}
         main = loop.create_task(waiter(structure))
+        step(6)
+        started = sorted(i for i in set(running) if i in is_coro)      # before anything is released
         done = []
         for i in order:
             step()
             done.append(main.done())
-            futs[i].set_result(untag(val[i]))
+            gate[i].set_result(untag(val[i]))
         n = 0
-        while not main.done() and n < 60:
+        while not main.done() and n < 80:
             step(1)
             n += 1
         done.append(main.done())
         if not main.done():
-            out = ['exc', 'NotTerminated']
+            out = ['exc', 'NeverReturned']
             main.cancel()
+            for t in tasks.values():
+                t.cancel()
             step()
         elif main.exception() is not None:
             out = ['exc', type(main.exception()).__name__]
         else:
             out = tag(main.result())
-        return {'k': 'waiter', 'tree': tree, 'vals': vals, 'order': order, 'done': done, 'out': out}
+        for c in coros:
+            try:
+                c.close()
+            except RuntimeError:
+                pass
+        return {'k': 'waiter', 'tree': tree, 'vals': vals, 'order': order, 'rev': rev, 'started': started, 'done': done, 'out': out}
     finally:
         loop.close()
 
@@ -263,9 +299,12 @@ def s2c_waiter(ctx, behaviours):
         ctx.evals += 1
         ctx.traces += 1
         nn = len(b['order'])
-        case = {'op': 'waiter', 'tree': b['tree'], 'order': b['order']}
+        case = {'op': 'waiter', 'tree': b['tree'], 'order': b['order'], 'rev': n % 2 == 1}
         if o['done'] != b['done']:
-            ctx.violation('waiter_returned_early' if any(o['done'][:-1]) else 'waiter_not_terminated', case, {'done': o['done']})
+            ctx.violation('waiter_returned_early' if any(o['done'][:-1]) else 'waiter_never_returns', case,
+                          {'done': o['done'], 'started': o['started']})
+        elif o['started'] != b['started']:
+            ctx.violation('waiter_not_all_started', case, {'expected_started': b['started'], 'started': o['started']})
         elif o['out'] != b['out']:
             ctx.violation('waiter_raised' if o['out'][0] == 'exc' else 'waiter_result', case,
                           {'expected': b['out'], 'observed': o['out']})
@@ -366,6 +405,32 @@ def rand_companion(rng, x, leaf):
     return rand_tree(rng, 3, 3, leaf)
 
 
+def with_deps(tree, rng):
+    """random dependencies among the un-started coroutines: i can only finish after dep has started"""
+    cor = []
+
+    def walk(t):
+        if t[0] == 'aw':
+            if t[1][1] == 'coro':
+                cor.append(t[1][0])
+        elif is_cont(t):
+            for c in t[1]:
+                walk(c[1] if t[0] == 'm' else c)
+    walk(tree)
+
+    def put(t):
+        if t[0] == 'aw':
+            if t[1][1] == 'coro' and len(cor) > 1 and rng.random() < 0.6:
+                return ['aw', [t[1][0], 'coro', rng.choice([j for j in cor if j != t[1][0]])]]
+            return t
+        if t[0] == 'm':
+            return ['m', [[k, put(v)] for k, v in t[1]]]
+        if is_cont(t):
+            return [t[0], [put(v) for v in t[1]]]
+        return t
+    return put(tree)
+
+
 def c2s(ctx, n_lift, n_lib, n_zip, n_norm, n_wait, extra_obs=()):
     rng = ctx.rng
     obs = list(extra_obs)
@@ -433,12 +498,13 @@ def c2s(ctx, n_lift, n_lib, n_zip, n_norm, n_wait, extra_obs=()):
         def leaf():
             if box[0] < budget and rng.random() < 0.7:
                 box[0] += 1
-                return ['aw', [box[0], 'fut' if shared else rng.choice(['fut', 'coro', 'task'])]]
+                return ['aw', [box[0], 'fut' if shared else rng.choice(['fut', 'coro', 'coro', 'task']), 0]]
             if shared and box[0] and rng.random() < 0.3:
-                return ['aw', [rng.randint(1, box[0]), 'fut']]
+                return ['aw', [rng.randint(1, box[0]), 'fut', 0]]
             return rng.choice([['i', 5], ['s', 'x'], ['n', 0]])
         tree = rand_tree(rng, 4, 4, leaf, p_leaf=0.2)
         ids = list(range(1, box[0] + 1))
+        tree = with_deps(tree, rng)
         vals = [[i, rng.choice([['i', 10 * i], ['i', 10], ['s', 'x'], ['n', 0], ['l', [['i', i]]], ['t', []],
                                ['m', [['a', ['i', i]]]]])] for i in ids]
         order = ids[:]
@@ -459,7 +525,7 @@ def c2s(ctx, n_lift, n_lib, n_zip, n_norm, n_wait, extra_obs=()):
         elif o['k'] == 'norm':
             case = {'op': o['fn'], 'x': o['x']}
         else:
-            case = {'op': 'waiter', 'tree': o['tree'], 'order': o['order']}
+            case = {'op': 'waiter', 'tree': o['tree'], 'order': o['order'], 'rev': o['rev']}
         ctx.violation(clause, case, {'observed': o.get('out', o.get('once')), 'twice': o.get('twice'), 'done': o.get('done')})
     for k in ('lift', 'lib', 'zip', 'norm', 'waiter'):
         sel = [o for o in obs if o['k'] == k]
@@ -495,6 +561,8 @@ def run(ctx):
         s2c(ctx, ctx.generate('MC_Lift', 'MC_Lift_gen_pairs.cfg'))
     # schedule part
     ctx.mc('MC_LiftWaiter', 'MC_LiftWaiter_quick.cfg' if q else 'MC_LiftWaiter_thorough.cfg')
+    # a waiter that awaits one awaitable after the other never returns on inter-dependent coroutines (on the model)
+    ctx.mc('MC_LiftWaiter', 'MC_LiftWaiter_sequential.cfg', must_fail='Termination', coverage=False)
     s2c_waiter(ctx, ctx.generate('MC_LiftWaiter', 'MC_LiftWaiter_gen_quick.cfg' if q else 'MC_LiftWaiter_gen_thorough.cfg'))
     # C2S (the as_list/as_tuple observations of the S2C inputs are judged here too: idempotence)
     if q:
@@ -511,7 +579,8 @@ def run(ctx):
         'as_tuple: on inputs where the documented rules give a 1-tuple holding a list (StarArgsCorner) only idempotence is required, not a value',
         'small scope: MC/S2C shapes depth <= 2 exhaustively (width <= 2 quick, <= 3 thorough) plus uniform/spine/chain families to depth 3/4; '
         'waiter: <= 6 awaitables, all orders; C2S: random trees to depth 4, width <= 4',
-        'the event loop is stepped 3 iterations after each completion and up to 60 after the last one; futures, coroutines and tasks only',
+        'the event loop is stepped 6 iterations after the call, 3 after each release and up to 80 after the last one (then: waiter_never_returns); '
+        'awaitables are futures, running tasks and un-started coroutines, the latter possibly waiting for another coroutine to start',
     ]
 
 
@@ -530,7 +599,7 @@ def replay(ctx, body):
     elif op == 'waiter':
         ids = sorted({i for i in case['order']})
         vals = [[i, ['i', 10 * i]] for i in ids]
-        got = run_schedule(case['tree'], vals, case['order'])
+        got = run_schedule(case['tree'], vals, case['order'], rev=case.get('rev', False))
     else:
         got = call_lib(op, case['x'], case['cs'], case['form'])
     print('clause  :', body['clause'])
